@@ -92,6 +92,22 @@ def check_string(s, allow, acc_t):
             continue
         if r != s:
             bad.append((name + '-differs', '%s gives %r for input %r' % (name, r, s)))
+    # looking up every index (removal point or not) must leave the result as it is
+    try:
+        keys0 = sorted(p.sequences)
+        for i in range(-1, len(u) + 2):
+            try:
+                p.sequences[i]
+            except KeyError:
+                pass
+            i in p.sequences
+            p.sequences.get(i)
+        r = p.formatted_str if isinstance(p.formatted_str, str) else p.formatted_str()
+        if sorted(k for k in p.sequences if p.sequences[k]) != keys0 or r != s or str(p) != s:
+            bad.append(('lookup-changes-result', 'after looking up every index in sequences: removal points %r (were %r), formatted_str %r for input %r'
+                        % (sorted(p.sequences), keys0, r, s)))
+    except Exception as e:  # noqa
+        bad.append(('parser-raises', 'looking up indices in sequences: %s: %s' % (type(e).__name__, e)))
     ru, rseqs, amb = reftok.tokenize(s, allow, acc_t)
     if not amb:
         if u != ru:
